@@ -9,7 +9,8 @@ ASSUME = ['details are expected back with one U+FFFD per byte that is not valid 
 def run(ctx):
     exe = vlib.build(ctx)
     vlib.tlc_mc(ctx, 'MC_Codec', 'MC_Codec', workers=1)
-    d = vlib.drive(ctx, exe, 'codec')
+    cli = vlib.build_cli(ctx)
+    d = vlib.drive(ctx, exe, 'codec', env={'VERIF_CLI': cli})
     s = json.load(open(os.path.join(d, 'summary.json')))
     rejects, lines = vlib.tlc_trace(ctx, 'Trace_Codec', os.path.join(d, 'codec.ndjson'), shards=2)
     for (ln, payload) in rejects:
@@ -19,11 +20,11 @@ def run(ctx):
                 ctx.drift.append('%s %s: %s' % (e['ev'], e.get('id', e.get('token')), why))
                 continue
             ident = e.get('token', e.get('status', e.get('id') if e['ev'] == 'Listing' else 'resultset'))
-            vlib.report(ctx, '%s:%s:%s' % (e['ev'], ident if e['ev'] != 'RoundTrip' else 'resultset', why), '%s %r: %s (%s)' % (e['ev'], e.get('id', ident), why, json.dumps(e)[:300]), dict(event=e))
+            vlib.report(ctx, '%s:%s:%s' % (e['ev'], ident if e['ev'] not in ('RoundTrip', 'CliOut') else ('resultset' if e['ev'] == 'RoundTrip' else 'tool:' + e.get('how', '')), why), '%s %r: %s (%s)' % (e['ev'], e.get('id', ident), why, json.dumps(e)[:300]), dict(event=e))
     cov = dict(evaluations=s['events'], distinct_nontrivial=s['nontrivial'] + s['tokens'],
-               rule='evaluation = one value taken through the codec (status label, label decoding incl. non-labels, a whole ResultSet encode->decode->encode, a registry listing); '
+               rule='evaluation = one value taken through the codec (status label, label decoding incl. non-labels, a whole ResultSet encode->decode->encode, a registry listing, the result object and the listing printed by the real zlint binary decoded and compared with what the library computes); '
                     'non-trivial = result sets with invalid-UTF-8 / non-ASCII details or >= 3 distinct statuses, plus decode probes',
-               samples=[json.loads(lines[0]), json.loads(lines[30]), json.loads(lines[-1])], roundtrips=s['roundtrips'],
+               samples=[json.loads(lines[0]), json.loads(lines[30]), json.loads(lines[-1])], roundtrips=s['roundtrips'], tool_runs=s.get('cli_runs'), tool_awkward_details=s.get('cli_awkward_details'),
                trusted_base=['encoding/json', 'Go rune conversion'])
     return vlib.finish(ctx, 'model_checking', cov, ASSUME)
 
